@@ -367,8 +367,8 @@ static bool enabled(int p, const struct opdef *od)
     case K_TCANCEL:
         return D.ntimers[p] > 0;
     case K_RESUME:
-        return q != p && q < D.P && proc_started(q) && D.cur[q].active && D.cur[q].od->kind == K_YIELD
-               && !D.resume_pending[q];
+        /* (also when a resume for the same yield is already on its way: whichever comes second is void) */
+        return q != p && q < D.P && proc_started(q) && D.cur[q].active && D.cur[q].od->kind == K_YIELD;
     case K_WAITP:
         return q != p && q < D.P && D.pstate[q] != PS_CREATED;
     case K_WAITE:
@@ -668,14 +668,14 @@ static int64_t do_op(int p, const struct opdef *od)
         ret = cmb_process_hold(des_dur(od));
         break;
     case K_TADD:
-        h = cmb_process_timer_add(me, des_dur(od), od->b ? sig_timer(p, (int)od->a) : CMB_PROCESS_TIMEOUT);
+        h = cmb_process_timer_add(me, des_dur(od), des_timer_signal(p, od));
         c->out = h;
         if (D.ntimers[p] < MAXTIMERS) {
             D.timers[p][D.ntimers[p]++] = h;
         }
         break;
     case K_TSET:
-        h = cmb_process_timer_set(me, des_dur(od), od->b ? sig_timer(p, (int)od->a) : CMB_PROCESS_TIMEOUT);
+        h = cmb_process_timer_set(me, des_dur(od), des_timer_signal(p, od));
         c->out = h;
         D.ntimers[p] = 0;
         D.timers[p][D.ntimers[p]++] = h;
@@ -1294,12 +1294,18 @@ static void run_one(void)
                 }
             }
         }
+        const double clock_before = cmb_time();
         if (!cmb_event_execute_next()) {
             break;
         }
         D.running = -1;
         D.nevents++;
         vx_transition();
+        if (cmb_time() < clock_before) {
+            /* whatever else is being checked: the dispatcher never takes the clock back */
+            VFAIL("c01:clock-went-backwards", "the event executed after t=%.17g ran at t=%.17g", clock_before, cmb_time());
+            break;
+        }
         if (D.abandon) {
             break;
         }
